@@ -203,7 +203,7 @@ def run(tier, seed, replay=None):
         cases += npn.par_map(PID, "c08", "make_case_seeded", seeds, tag="gen")
     for c in cases:
         c.pop("result", None)
-    results = [rr[0] for rr in npn.run_cases(PID, cases)]
+    results = [rr[0] for rr in npn.run_cases_confirmed(PID, cases)]
     R.cov["evaluations"] = len(cases)
     hist, arms, outcome, kinds = {}, {}, {}, {}
 
